@@ -573,7 +573,7 @@ class SendCloseInternal(_CloseBase):
     def raises(self, ip, a, old):
         rb = close_payload(ip, a.code, a.reason)
         too_long = rb.n > 123 if a.code is not None else BoolVal(False)
-        return [Raises(ValueError, when=too_long, iff=True, ensures=self.nothing(ip, old), modifies=[], tags=('C03',))]
+        return [Raises(ValueError, when=too_long, iff=True, ensures=self.nothing(ip, old), modifies=[], tags=('C03', 'C08'))]
 
     def result(self, ip, a, old):
         st = ip.st
@@ -621,7 +621,7 @@ class SendCloseInternal(_CloseBase):
         return [('returns-bool', BoolVal(False))]
 
 
-@contract('lomond.websocket.WebSocket.close', serves=['C03', 'C08', 'C12'])
+@contract('lomond.websocket.WebSocket.close', serves=['C03', 'C08', 'C12', 'C09', 'C07', 'C15'])
 class Close(_CloseBase):
     """from C08/C03: open -> exactly one Close frame (code, reason) - or nothing if the transport
     refused it - then closing is set and sent_close_time recorded; already closing/closed -> nothing
@@ -649,7 +649,7 @@ class Close(_CloseBase):
     def raises(self, ip, a, old):
         rb = close_payload(ip, a.code, a.reason)
         too_long = rb.n > 123 if a.code is not None else BoolVal(False)
-        return [Raises(ValueError, when=And(self.was_open(ip, old), too_long), iff=True, modifies=[], tags=('C03',),
+        return [Raises(ValueError, when=And(self.was_open(ip, old), too_long), iff=True, modifies=[], tags=('C03', 'C08'),
                        ensures=self.nothing(ip, old))]
 
     def result(self, ip, a, old):
@@ -684,9 +684,9 @@ class Close(_CloseBase):
                ('closed-flag-untouched', st.get(W.state, 'closed') == old.get(W.state, 'closed'))]
         sct = st.get(W.state, 'sent_close_time')
         if isinstance(sct, SOpt):
-            out.append(('close-time-recorded-when-it-was-open', Implies(was_open, Not(sct.is_none)), ('C08', 'C15')))
+            out.append(('close-time-recorded-when-it-was-open', Implies(was_open, Not(sct.is_none)), ('C08', 'C15', 'C09', 'C07')))
         else:
-            out.append(('close-time-recorded-when-it-was-open', BoolVal(sct is not None), ('C08', 'C15')))
+            out.append(('close-time-recorded-when-it-was-open', BoolVal(sct is not None), ('C08', 'C15', 'C09', 'C07')))
         if len(w) == 1:
             out += close_frame_facts(ip, w[0], None if a.code is None else iv(a.code), rb)
         return out
